@@ -8,6 +8,7 @@
 -/
 import WD.Proofs.Debouncer
 import WD.Proofs.Restart
+import WD.Proofs.Restart.Helpers
 import WD.Proofs.Shell
 namespace WD.C18
 open WD.Deb WD.ProofsDeb
@@ -91,6 +92,25 @@ theorem kill_loop_has_child (i : Nat) (ti : Rst.Thread)
     (hi : (Rst.run (Rst.init cfg lifetimes rscripts) ras).threads[i]? = some ti) (hs : ProofsRst.isSleep ti.pc = true) :
     (Rst.run (Rst.init cfg lifetimes rscripts) ras).process ≠ none :=
   ProofsRst.sleeping_has_process cfg lifetimes rscripts ras i ti hi hs
+
+/-- "with all its helper threads gone", the watcher threads: once the working stop() has returned the trick references no
+    watcher and no child, and EVERY watcher thread ever started has been told to stop (a watcher is told to stop when its
+    child is replaced or stopped; it is not joined unless it is the current one, so it may still have its last step to
+    take - `stopped_watcher_ends`).  Not covered: the debouncer thread, which is joined by stop() and whose termination
+    is part of the explored runs only. -/
+theorem watchers_stopped_after_stop (tid t : Nat)
+    (h : Rst.Obs.stopRet tid t ∈ (Rst.run (Rst.init cfg lifetimes rscripts) ras).hist) :
+    (Rst.run (Rst.init cfg lifetimes rscripts) ras).watcher = none ∧
+    (Rst.run (Rst.init cfg lifetimes rscripts) ras).process = none ∧
+    ∀ (j : Nat) (th : Rst.Thread), (Rst.run (Rst.init cfg lifetimes rscripts) ras).threads[j]? = some th →
+      ProofsRst.isWatcher th.kind = true → th.stopFlag = true :=
+  ProofsRst.watchers_stopped cfg lifetimes rscripts ras tid t h
+
+/-- a watcher that has been told to stop is not blocked in its poll loop: it can take its next step, and that step ends it -/
+theorem stopped_watcher_ends (s : Rst.State) (j : Nat) (th : Rst.Thread) (hth : s.threads[j]? = some th)
+    (hf : th.stopFlag = true) (dl : Nat) (hpc : th.pc = .wWait dl) :
+    Rst.enabled s j = true ∧ ∃ s', Rst.step s j = some s' ∧ ProofsRst.pcOf s' j = some .done :=
+  ProofsRst.stopped_watcher_ends s j th hth hf dl hpc
 
 /-- non-vacuity: start, an event while the child runs (the child takes 300 ms to die of SIGINT), stop: two children
     were spawned, the working stop() returned, nobody is alive -/
